@@ -20,4 +20,4 @@ got = p.stdout.split("\n")[:len(ops)]
 bad = [(owner[i], ops[i], got[i], lib.esc(exp[i])) for i in range(len(ops)) if got[i] != lib.esc(exp[i])]
 print("%d ops, %d disagreements" % (len(ops), len(bad)))
 for b in bad[:4]:
-    print("case %d\n op    %s\n model %s\n impl  %s" % tuple(str(x)[:700] for x in b))
+    print("case %s\n op    %s\n model %s\n impl  %s" % tuple(str(x)[:700] for x in b))
